@@ -2,7 +2,7 @@ NAME = 'I-resolve'
 PROPERTIES = ['C02', 'C15']
 ENGINE = 'verus'
 CLASS = 'U'
-DOC = ('Operations::{rebuild_indexes, create_index} (storage/database/operations.rs): the user-defined (CREATE INDEX) indexes of a table are built and '
+DOC = ('Operations::{rebuild_indexes, create_index, drop_table} (storage/database/operations.rs): a dropped table leaves no user-defined index behind (neither under the name it is stored under nor under its bare name); the user-defined (CREATE INDEX) indexes of a table are built and '
        'REBUILT from the rows of the table the name resolves to - tables are stored under their normalized, schema-qualified name, and both functions '
        'resolve a bare name the same way (spec fn resolve). rebuild_indexes is what DELETE (and the savepoint undo) call after row positions shift.')
 
@@ -35,6 +35,8 @@ impl Table {
 #[verifier::external_body] pub struct TableMap { m: u8 }
 impl TableMap {
     pub uninterp spec fn view(&self) -> Map<Str, Table>;
+    #[verifier::external_body] pub fn remove(&mut self, k: &Str) -> (r: Option<Table>)
+        ensures final(self).view() == old(self).view().remove(*k), (r is Some) == old(self).view().dom().contains(*k) { unimplemented!() }
     #[verifier::external_body] pub fn get(&self, k: &Str) -> (r: Option<&Table>)
         ensures (r is Some) == self.view().dom().contains(*k), r is Some ==> *r.unwrap() == self.view()[*k] { unimplemented!() }
 }
@@ -45,6 +47,9 @@ impl Catalog {
     pub uninterp spec fn table(&self, name: Str) -> Option<TableSchema>;
     #[verifier::external_body] pub fn is_case_sensitive_identifiers(&self) -> (r: bool) ensures r == self.case_sensitive() { unimplemented!() }
     #[verifier::external_body] pub fn get_current_schema(&self) -> (r: Str) ensures r == self.schema() { unimplemented!() }
+    // catalog.drop_table(name).map_err(|e| StorageError::CatalogError(e.to_string()))
+    #[verifier::external_body] pub fn drop_table_(&mut self, name: &Str) -> (r: Result<(), StorageError>)
+        ensures final(self).case_sensitive() == old(self).case_sensitive(), final(self).schema() == old(self).schema() { unimplemented!() }
     #[verifier::external_body] pub fn get_table(&self, name: &Str) -> (r: Option<&TableSchema>)
         ensures (r is Some) == (self.table(*name) is Some), r is Some ==> *r.unwrap() == self.table(*name).unwrap() { unimplemented!() }
 }
@@ -72,6 +77,12 @@ impl IndexRegistry {
     pub uninterp spec fn has_index(&self, index_name: Str, table: Str, rows: Seq<Row>) -> bool;
     #[verifier::external_body]
     pub fn rebuild_indexes(&mut self, name: &Str, schema: &TableSchema, rows: &Vec<Row>) ensures final(self).built_from(*name, rows@) { unimplemented!() }
+    /// some index is registered under this table name (index metadata holds the name CREATE INDEX was given)
+    pub uninterp spec fn any_for(&self, table: Str) -> bool;
+    // IndexManager::drop_indexes_for_table: every index whose metadata names exactly this table goes, the others stay
+    #[verifier::external_body]
+    pub fn drop_indexes_for_table(&mut self, name: &Str) -> (r: Vec<Str>)
+        ensures !final(self).any_for(*name), forall|u: Str| u != *name ==> final(self).any_for(u) == old(self).any_for(u) { unimplemented!() }
     #[verifier::external_body]
     pub fn create_index(&mut self, index_name: Str, table_name: Str, schema: &TableSchema, rows: &Vec<Row>, unique: bool, columns: Vec<IndexColumn>) -> (r: Result<(), StorageError>)
         ensures r is Ok ==> final(self).has_index(index_name, table_name, rows@) { unimplemented!() }
@@ -79,6 +90,9 @@ impl IndexRegistry {
 pub struct Operations { pub index_manager: IndexRegistry }
 
 impl Operations {
+    #[verifier::external_body] fn drop_spatial_indexes_for_table(&mut self, name: &Str) ensures final(self).index_manager == old(self).index_manager { unimplemented!() }
+//@@ drop_table
+
 //@@ create_index
 
 //@@ rebuild_indexes
@@ -122,8 +136,25 @@ ITEMS = {
     '''),
 }
 
+ITEMS['drop_table'] = dict(file=_F, path='impl Operations::fn drop_table', ret='res', rewrites=[
+        ('re', r'&mut vibesql_catalog::Catalog', '&mut Catalog', 1), ('re', r'&mut HashMap<String, Table>', '&mut TableMap', 1),
+        ('re', r'&str\b', '&Str', None),
+        ('re', r'name\.to_string\(\)', 'name.clone()', None),
+        ('re', r"normalized_name\.contains\('\.'\)", 'normalized_name.has_dot()', None),
+        ('re', r'format!\("\{\}\.\{\}", current_schema, normalized_name\)', 'qualify(&current_schema, &normalized_name)', None),
+        ('re', r'catalog\.drop_table\(name\)\.map_err\(\|e\| StorageError::CatalogError\(e\.to_string\(\)\)\)\?;', 'catalog.drop_table_(name)?;', 1),
+    ],
+    contract='''
+        ensures
+            // a dropped table leaves NO user-defined index behind: neither one registered under the name the table is stored under, nor one registered under its bare name
+            // (index metadata holds the table name as CREATE INDEX was given it)
+            res is Ok ==> !final(self).index_manager.any_for(norm(old(catalog), *name))
+                && !final(self).index_manager.any_for(if dotted(norm(old(catalog), *name)) { norm(old(catalog), *name) } else { qualified(old(catalog).schema(), norm(old(catalog), *name)) }),
+''')
+
 OBLIGATIONS = {
     'create_index': ['post:index_built_from_the_rows_of_the_resolved_table'],
+    'drop_table': ['post:no_user_defined_index_left_under_the_stored_name_or_the_bare_name'],
     'rebuild_indexes': ['post:resolves_the_table_like_every_other_operation_and_rebuilds_from_its_current_rows'],
 }
 CANARIES = ['canary_rebuild']
@@ -132,5 +163,6 @@ TRUSTED = [
     'external_body TableMap::get (std HashMap<String, Table>), Catalog (is_case_sensitive_identifiers, get_current_schema, get_table), table_or_err / schema_or_err (Option::ok_or_else), validate_prefix_lengths',
     'external_body IndexRegistry::{rebuild_indexes, create_index}: the user-defined index registry (database/indexes/index_maintenance.rs, BTreeMap / B+ tree maintenance) by ASSUMED contracts: "every index of the table was rebuilt from these rows" - its maintenance code is not verified (C15 region)',
     'spec fn resolve is read off create_index / insert_row / Database::get_table (normalized name, then schema-qualified): the contract states that rebuild_indexes uses the SAME resolution, not that the resolution is the right one',
+    'drop_table: external_body IndexRegistry::drop_indexes_for_table (every index whose metadata names exactly that table goes: `metadata.table_name == table_name`), TableMap::remove, Catalog::drop_table_ (catalog.drop_table(..).map_err(..)), drop_spatial_indexes_for_table (does not touch the B-tree registry); a table dropped under a schema-qualified name keeps indexes registered under its bare name (not reachable through SQL: qualified names do not parse in DML / DDL)',
     'insert_row / insert_rows_batch (get_mut returns &mut: outside this Verus) and the executors that call rebuild_indexes are not under contract',
 ]
